@@ -14,7 +14,11 @@ crate=$(grep -o 'cargo test -p [a-z_-]*' "$O/${X}_meta.json" | head -1 | awk '{p
 [ -z "$crate" ] && crate=syntax
 feat=""; [ "$crate" = glas ] && feat="--features verif"
 demo="$O/${X}_demo.rs"
+if [ -f "$O/${X}_demo.py" ]; then
+run_demo() { cargo build -p glas --bin glas --offline 2>&1 | grep -E "^error" | head -3; GLAS_BIN=$CARGO_TARGET_DIR/debug/glas timeout 600 python3 "$O/${X}_demo.py" $CARGO_TARGET_DIR/debug/glas 2>&1 | tail -3; echo "demo exit=$?"; }
+else
 run_demo() { mkdir -p crates/$crate/tests; cp "$demo" crates/$crate/tests/${X}_demo.rs; cargo test -p $crate $feat --test ${X}_demo --offline 2>&1 | grep -E "^test result|error(\[|:)|panicked|could not compile" | head -5; }
+fi
 echo "--- demo WITHOUT mutant (crate $crate)"; run_demo
 if git apply "$O/$X.patch" 2>/dev/null || patch -p1 -s --no-backup-if-mismatch < "$O/$X.patch"; then echo "--- patch applied"; else echo "PATCH DOES NOT APPLY"; exit 3; fi
 git diff --stat | tail -1
